@@ -323,6 +323,14 @@ impl Bus {
                     // switching the LCD on/off may move the LCD position
                     self.val[0xff44] = probe(0xff44);
                 }
+                if off == 0x07 || off == 0x04 {
+                    // a TAC or DIV write may produce a falling edge for the timer (with a
+                    // divider that is not at zero): TIMA and the timer request are C13's subject
+                    self.val[0xff05] = probe(0xff05);
+                    if probe(0xff0f) & 0x04 != 0 {
+                        self.val[0xff0f] |= 0x04;
+                    }
+                }
             }
         }
         Ok(())
